@@ -41,3 +41,19 @@ pub fn copy_into_suffix(x: &mut Vec<u8>, n: usize, y: &[u8])
 /// specification) — ASSUMED [L-STD]: slice inequality is inequality of content
 #[verifier::external_body]
 pub fn bytes_ne(a: &[u8], b: &[u8]) -> (r: bool) ensures r == (a@ != b@) { unimplemented!() }
+
+// ----- PROVED: extensional facts about byte sequences the solver does not find by itself (a rewritten but
+// equivalent slicing / concatenation then meets the same contract) -------------------------------------
+pub broadcast proof fn lemma_subrange_full<A>(s: Seq<A>)
+    ensures #[trigger] s.subrange(0, s.len() as int) == s
+{ assert(s.subrange(0, s.len() as int) =~= s); }
+pub broadcast proof fn lemma_take_full<A>(s: Seq<A>)
+    ensures #[trigger] s.take(s.len() as int) == s
+{ assert(s.take(s.len() as int) =~= s); }
+pub broadcast proof fn lemma_add_empty_right<A>(s: Seq<A>)
+    ensures #[trigger] (s + Seq::<A>::empty()) == s
+{ assert(s + Seq::<A>::empty() =~= s); }
+pub broadcast proof fn lemma_add_empty_left<A>(s: Seq<A>)
+    ensures #[trigger] (Seq::<A>::empty() + s) == s
+{ assert(Seq::<A>::empty() + s =~= s); }
+pub broadcast group seq_ext { lemma_subrange_full, lemma_take_full, lemma_add_empty_right, lemma_add_empty_left }
